@@ -31,6 +31,9 @@ type altObs struct {
 	Rec int      `json:"rec"` // index of the record whose header was altered
 	Seq []recOut `json:"seq"`
 	At  recOut   `json:"at"`
+	// a reader that reads the records before the damaged one, SKIPS the damaged one, and reads on
+	SkipErr   string   `json:"skip_err,omitempty"`
+	AfterSkip []recOut `json:"after_skip,omitempty"`
 }
 
 type fhObs struct {
@@ -182,6 +185,33 @@ func (c *c12Case) Exec() {
 						ob.At = mkRec(b, err, true)
 						m.Close()
 					}
+					// skipping is reading and discarding: stepping over the damaged record must fail too, and whatever follows
+					// a skip that "succeeded" must be the genuine continuation
+					func() {
+						rd, err := recordio.NewFileReader(recordio.ReaderPath(tmp), recordio.ReaderBufferSizeBytes(c.RBuf))
+						if err != nil || rd.Open() != nil {
+							ob.SkipErr = "Open"
+							return
+						}
+						defer rd.Close()
+						for i := 0; i < ri; i++ {
+							if _, err := rd.ReadNext(); err != nil {
+								ob.SkipErr = "Before"
+								return
+							}
+						}
+						if err := rd.SkipNext(); err != nil {
+							ob.SkipErr = classifyErr(err)
+							return
+						}
+						for i := 0; i < len(c.Recs)+1; i++ {
+							b, err := rd.ReadNext()
+							ob.AfterSkip = append(ob.AfterSkip, mkRec(b, err, false))
+							if err != nil {
+								break
+							}
+						}
+					}()
 					c.Alts = append(c.Alts, ob)
 				}
 			}
@@ -289,6 +319,18 @@ func (c *c12Case) Oracle() (bool, string) {
 			}
 			if ob.At.Err == "" {
 				return false, fmt.Sprintf("header byte %d (record %d) %02x->%02x, random-access reader returned data (nil=%v %x)", ob.Pos, ob.Rec, c.File[ob.Pos], ob.Val, ob.At.Nil, ob.At.Data)
+			}
+			if ob.SkipErr == "" {
+				// the skip over the damaged record was accepted: what follows must be exactly the records behind it
+				for i, r := range ob.AfterSkip {
+					if r.Err != "" {
+						break
+					}
+					j := ob.Rec + 1 + i
+					if j >= len(c.Recs) || r.Nil != c.Recs[j].Nil || !bytes.Equal(r.Data, c.rec(j)) {
+						return false, fmt.Sprintf("header byte %d (record %d) %02x->%02x: SkipNext stepped over the damaged record and the next read returned something that is not the following record", ob.Pos, ob.Rec, c.File[ob.Pos], ob.Val)
+					}
+				}
 			}
 		}
 	case "filehdr":
@@ -449,25 +491,6 @@ func init() {
 		Gen:  genC12,
 		New:  func() Case { return &c12Case{} },
 		Rule: "cut: files of 1-5 adversarial records per compression type, every truncation length 0..size, sequential reader and ReadNextAt at every record offset; hdr: every header byte of every record x all 255 other values (short files) or {00,ff,91,8d,4c,01,80} (longer files), both readers; filehdr: version 0..9 x compression 0..6 plus large values. Non-trivial: >=2 records (or file-header grid).",
-		Classify: func(cs Case, msg string) string {
-			c := cs.(*c12Case)
-			if c.Mode != "hdr" {
-				return ""
-			}
-			// F-C12a: continuation bit set on the last header byte and the following byte is 0x00
-			for _, ob := range c.Alts {
-				k, m := c.genuinePrefix(ob.Seq)
-				bad := m != "" || k > ob.Rec || ob.At.Err == ""
-				if !bad {
-					continue
-				}
-				last := int(c.Offs[ob.Rec]) + c.HLens[ob.Rec] - 1
-				if !(ob.Pos == last && ob.Val == int(c.File[ob.Pos])|0x80 && last+1 < len(c.File) && c.File[last+1] == 0x00) {
-					return ""
-				}
-			}
-			return "F-C12a"
-		},
 	})
 }
 
